@@ -88,7 +88,11 @@ def sedov(c):
         ah = slice(k + 2, None)
         if ah.start < len(x):
             da = np.abs(r[ah] - P.get('rho0', 1.0) * x[ah] ** (-om)) / (P.get('rho0', 1.0) * x[ah] ** (-om))
-            if (da > 1e-4).any() or (np.abs(u[ah]) > 0).any():
+            # the solver interpolates linearly on its own 3001-point grid over [0, max(r)] (documented resolution): for the ambient power law the
+            # relative interpolation error is at most omega (omega + 1) / 8 (dr / r)^2; four times that bound is allowed on top of 1e-4
+            dr = float(np.max(x)) / 3000.0
+            tol_a = 1e-4 + 4 * om * (om + 1) / 8.0 * (dr / np.maximum(x[ah] - dr, dr)) ** 2
+            if (da > tol_a).any() or (np.abs(u[ah]) > 0).any():
                 out['ahead_not_undisturbed'] = {'max_rel_density_error': float(da.max()), 'max_speed': float(np.abs(u[ah]).max())}
     return out
 
